@@ -1,5 +1,5 @@
 """C03 -- {var:} output is HTML-safe for every string; {raw:} is verbatim (structural clauses)."""
-from qlib import astq, tab
+from qlib import astq, tab, dataflow
 from qlib.model import AnalysisBroken
 from qlib.report import Rule
 
@@ -290,6 +290,9 @@ def run(ctx):
         r.ob(es.q, "pass-through " + ent, ok, "guard rem_length > %s, ';' at n_str[%s], compares %s units, skips %s; entity length %d needs %d/%d/%d/%d" % (G, I, C, S, L, L - 1, L - 1, L - 1, L), es.loc(i))
     rules.append(r)
 
+    # ---------------- PR-passthru
+    rules.append(rule_passthrough(ctx, m, es, seen, ENTITIES))
+
     # ---------------- CFG-switch
     r = Rule("CFG-switch", "the escaper is guarded by Config::AutoEscapeHTML; the off branch is one raw Write", floor=1)
     top_ifs = [i for i in astq.nodes_of(es, "IfStmt") if "AutoEscapeHTML" in es.text(es.nodes[i]["cond"])]
@@ -301,5 +304,234 @@ def run(ctx):
             cs = astq.calls(es, None, els)
             ok = len(cs) == 1 and es.call_simple_name(cs[0]) == "Write" and [es.text(a) for a in es.call_args(cs[0])] == ["str", "length"]
     r.ob(es.q, "if (Config::AutoEscapeHTML)", ok, "else-branch is stream.Write(str, length)", "Include/StringUtils.hpp:%d" % es.line)
+    # the compile-time switch itself: the value of the constant in the translation unit built with the macro set to 0 and with the
+    # macro left alone (constant-evaluated by the front end in both builds; nothing is run)
+    for (cfg, want, how) in (("sse2", 1, "QENTEM_AUTO_ESCAPE_HTML not given"), ("sse2-noescape", 0, "-DQENTEM_AUTO_ESCAPE_HTML=0")):
+        mc = ctx.pattern(cfg)
+        vs = [v for v in mc.vars if v["q"] == "Qentem::Config::AutoEscapeHTML"]
+        if not vs or "val" not in vs[0]:
+            r.broke("Config::AutoEscapeHTML has no constant value in the build with %s" % how)
+            continue
+        r.ob("Qentem::Config", "AutoEscapeHTML with %s" % how, vs[0]["val"] == want, "the constant evaluates to %s in that build; %s is required%s" % (
+            bool(vs[0]["val"]), bool(want), "" if vs[0]["val"] == want else ": {var:} keeps escaping although the configuration turns it off" if want == 0 else ""),
+            "Include/QCommon.hpp:%d" % vs[0]["line"])
+    r.floor = 3
     rules.append(r)
     return rules
+
+
+
+def rule_passthrough(ctx, m, es, seen, ENTITIES):
+    """PR-passthru: "escaping an already escaped string changes nothing".  Abstract interpretation of the '&' arm of the escaper
+    over the domain (known prefix of the text at the cursor, interval of the remaining length): for each of the five entities the
+    prefix is the entity, every later unit is unknown and the remaining length is any value >= the entity's length.  Branch
+    conditions are evaluated three-valued (remaining-length comparisons, unit comparisons, IsEqual against an entity literal);
+    an unknown condition takes both edges.  On EVERY feasible path the arm must advance the cursor by exactly the entity's length and
+    write nothing.  A path that emits an entity or advances differently is reported with the decisions that lead to it."""
+    r = Rule("PR-passthru", "an entity at the cursor is skipped whole and nothing is emitted, whatever follows it (abstract paths of the '&' arm)", floor=5)
+    amp = seen.get(ord("&"))
+    if not amp or not es.cfg:
+        r.broke("EscapeHTMLSpecialChars: the case '&' arm was not found")
+        return r
+    blocks = es.blocks()
+    start = [b for b in es.cfg["blocks"] if (b.get("label") or {}).get("case") == ord("&")]
+    if len(start) != 1:
+        r.broke("EscapeHTMLSpecialChars: no CFG block carries the label case '&'")
+        return r
+    arm_nodes = set(x for s_ in amp for x in es.walk(s_))
+    lits = {ent: lit for (ent, lit) in ENTITIES.values()}
+    names = {"SemicolonChar": ";"}
+    decl_init = {}
+    for x in arm_nodes:
+        if es.nodes[x]["k"] == "DeclStmt":
+            for d in es.nodes[x]["decls"]:
+                if "d" in d and d.get("init", -1) >= 0:
+                    decl_init[d["d"]] = d["init"]
+
+    def lin(x, depth=0):
+        """{name: coeff, 1: const} over the parameters/cursors, locals of the arm resolved through their initialisers"""
+        x = es.strip_casts(x)
+        n = es.nodes[x]
+        c = es.const_value(x)
+        if c is None and n["k"] not in ("DeclRefExpr", "BinaryOperator", "ParenExpr"):
+            c = m.eval_nodes(es.nodes, x)
+        if c is not None:
+            return {1: c}
+        if n["k"] == "DeclRefExpr":
+            if n.get("d") in decl_init and depth < 6:
+                return lin(decl_init[n["d"]], depth + 1)
+            return {n.get("n"): 1}
+        if n["k"] == "BinaryOperator" and n["op"] in ("+", "-"):
+            a, b = lin(n["ch"][0], depth), lin(n["ch"][1], depth)
+            if a is None or b is None:
+                return None
+            out = dict(a)
+            for k, v in b.items():
+                out[k] = out.get(k, 0) + (v if n["op"] == "+" else -v)
+            return {k: v for k, v in out.items() if v or k == 1}
+        return None
+
+    def remaining(x):
+        """c such that x == (length - index) + c"""
+        L = lin(x)
+        if L is None:
+            return None
+        rest = {k: v for k, v in L.items() if k != 1 and v}
+        return L.get(1, 0) if rest == {"length": 1, "index": -1} else None
+
+    def unit_pos(x):
+        """p such that x reads str[index + p]"""
+        x = es.strip_casts(x)
+        n = es.nodes[x]
+        if n["k"] != "ArraySubscriptExpr":
+            return None
+        b, i = lin(n["ch"][0]), lin(n["ch"][1])
+        if b is None or i is None:
+            return None
+        tot = dict(b)
+        for k, v in i.items():
+            tot[k] = tot.get(k, 0) + v
+        rest = {k: v for k, v in tot.items() if k != 1 and v}
+        return tot.get(1, 0) if rest == {"str": 1, "index": 1} else None
+
+    def const_unit(x):
+        x = es.strip_casts(x)
+        n = es.nodes[x]
+        nm = n.get("n")
+        if nm in names:
+            return ord(names[nm])
+        v = es.const_value(x)
+        return v
+
+    def evaluate(x, st):
+        """True / False / None (unknown) / 'unclassified'; may refine st['lo'], st['hi'] through the caller"""
+        x = es.strip(x)
+        n = es.nodes[x]
+        if n["k"] == "UnaryOperator" and n["op"] == "!":
+            v = evaluate(n["ch"][0], st)
+            return v if v in (None, "unclassified") else (not v)
+        if n["k"] == "BinaryOperator" and n["op"] in ("<", "<=", ">", ">=", "==", "!="):
+            a, b = n["ch"]
+            for (l_, r_, op) in ((a, b, n["op"]), (b, a, {"<": ">", "<=": ">=", ">": "<", ">=": "<=", "==": "==", "!=": "!="}[n["op"]])):
+                c = remaining(l_)
+                k = lin(r_)
+                if c is not None and k is not None and set(k) <= {1}:
+                    return ("rem", op, k.get(1, 0) - c)     # R op value
+                p = unit_pos(l_)
+                u = const_unit(r_)
+                if p is not None and u is not None and op in ("==", "!="):
+                    if p < len(st["prefix"]):
+                        eq = ord(st["prefix"][p]) == u
+                        return eq if op == "==" else (not eq)
+                    return None
+            return "unclassified"
+        if n["k"] in ("CallExpr", "CXXMemberCallExpr") and es.call_simple_name(x) == "IsEqual":
+            args = es.call_args(x)
+            if len(args) == 3:
+                b0 = lin(args[0])
+                ent = es.nodes[es.strip(args[1])].get("n")
+                cnt = lin(args[2])
+                if b0 is not None and {k: v for k, v in b0.items() if k != 1 and v} == {"str": 1, "index": 1} and ent in lits and cnt is not None and set(cnt) <= {1}:
+                    off, nunits = b0.get(1, 0), cnt.get(1, 0)
+                    unknown = False
+                    for j in range(nunits):
+                        if j >= len(lits[ent]):
+                            return "unclassified"
+                        pp = off + j
+                        if pp < len(st["prefix"]):
+                            if st["prefix"][pp] != lits[ent][j]:
+                                return False
+                        else:
+                            unknown = True
+                    return None if unknown else True
+            return "unclassified"
+        return "unclassified"
+
+    def effects(b, st):
+        for e in b["el"]:
+            x = e.get("n")
+            if not isinstance(x, int) or e.get("k"):
+                continue
+            n = es.nodes[x]
+            if n["k"] in ("CallExpr", "CXXMemberCallExpr") and es.call_simple_name(x) == "Write":
+                st["writes"].append(es.text(x)[:60])
+            if n["k"] == "CompoundAssignOperator" and n["op"] == "+=" and es.nodes[es.strip(n["ch"][0])].get("n") == "index":
+                k = lin(n["ch"][1])
+                st["adv"] = None if (k is None or set(k) - {1} or st["adv"] is None) else st["adv"] + k.get(1, 0)
+            if n["k"] == "UnaryOperator" and n["op"] == "++" and es.nodes[es.strip(n["ch"][0])].get("n") == "index":
+                st["adv"] = None if st["adv"] is None else st["adv"] + 1
+            if n["k"] == "BinaryOperator" and n["op"] == "=" and es.nodes[es.strip(n["ch"][0])].get("n") == "index":
+                st["adv"] = None
+
+    def in_arm(b):
+        ns = [e["n"] for e in b["el"] if isinstance(e.get("n"), int) and not e.get("k")]
+        return bool(ns) and all(x in arm_nodes for x in ns)
+
+    for ch, (ent, lit) in sorted(ENTITIES.items()):
+        L = len(lit)
+        finals = []
+        work = [(start[0]["id"], {"prefix": lit, "lo": L, "hi": 10 ** 9, "writes": [], "adv": 0, "dec": [], "uncl": False})]
+        steps = 0
+        while work and steps < 5000:
+            steps += 1
+            bid, st = work.pop()
+            b = blocks[bid]
+            if bid != start[0]["id"] and not in_arm(b):
+                finals.append(st)
+                continue
+            effects(b, st)
+            succ = dataflow.successors(es, b)
+            if not succ:
+                finals.append(st)
+                continue
+            if succ[0][1] not in ("true", "false"):
+                for (s_, k_, p_) in succ:
+                    work.append((s_, st))
+                    break
+                continue
+            cond = succ[0][2]
+            v = evaluate(cond, st)
+            for (s_, kind, _) in succ:
+                truth = kind == "true"
+                st2 = dict(st, writes=list(st["writes"]), dec=list(st["dec"]))
+                if isinstance(v, tuple):
+                    _, op, val = v
+                    lo, hi = st2["lo"], st2["hi"]
+                    eff = op if truth else {"<": ">=", "<=": ">", ">": "<=", ">=": "<", "==": "!=", "!=": "=="}[op]
+                    if eff == ">":
+                        lo = max(lo, val + 1)
+                    elif eff == ">=":
+                        lo = max(lo, val)
+                    elif eff == "<":
+                        hi = min(hi, val - 1)
+                    elif eff == "<=":
+                        hi = min(hi, val)
+                    elif eff == "==":
+                        lo, hi = max(lo, val), min(hi, val)
+                    if lo > hi:
+                        continue
+                    st2["lo"], st2["hi"] = lo, hi
+                elif v is True or v is False:
+                    if v != truth:
+                        continue
+                else:
+                    if v == "unclassified":
+                        st2["uncl"] = True
+                    st2["dec"].append("%s is %s" % (es.text(cond)[:70], "true" if truth else "false"))
+                work.append((s_, st2))
+        if steps >= 5000 or not finals:
+            r.broke("EscapeHTMLSpecialChars: the paths of the '&' arm for %s could not be enumerated" % lit)
+            continue
+        bad = [st for st in finals if st["writes"] or st["adv"] != L]
+        hard = [st for st in bad if not st["uncl"]]
+        if bad and not hard:
+            r.broke("EscapeHTMLSpecialChars: a path of the '&' arm for %s depends on a condition this rule cannot classify (%s)" % (lit, "; ".join(bad[0]["dec"])[:200]))
+            continue
+        if hard:
+            st = hard[0]
+            why = "with %s at the cursor and %s, the arm %s instead of skipping the %d units of the entity: an escaped string is escaped again" % (
+                lit, ("; ".join(st["dec"]) or "any continuation"), ("writes %s" % st["writes"][0]) if st["writes"] else "advances by %s" % st["adv"], L)
+        else:
+            why = "%d feasible path(s): each advances the cursor by %d and writes nothing" % (len(finals), L)
+        r.ob(es.q, "pass-through of %s on every continuation" % lit, not hard, why, es.loc(amp[0]))
+    return r
